@@ -6,7 +6,7 @@
 From Coq Require Import List ZArith Bool Arith Lia.
 From SC Require Import Base.Res Base.PyList Inst.Heap Inst.ClassTable Inst.Model Inst.Canon
   Inst.Abs Inst.SpecHelpers Inst.ElemProofs Inst.Framed Inst.RefineProofs Inst.CopyProofs Inst.ElemRefineDep Inst.ElemRefine
-  Inst.ElemRefine2 Inst.ElemRefine3 Inst.ElemRefine4 Inst.ElemRefine5 Inst.ElemRefine6 Inst.ElemRefine7 Inst.ElemRefine8 Inst.ElemRefine9 Inst.ElemRefine10 Inst.ElemRefine11 Inst.ElemRefine12 Inst.ElemRefine13.
+  Inst.ElemRefine2 Inst.ElemRefine3 Inst.ElemRefine4 Inst.ElemRefine5 Inst.ElemRefine6 Inst.ElemRefine7 Inst.ElemRefine8 Inst.ElemRefine9 Inst.ElemRefine10 Inst.ElemRefine11 Inst.ElemRefine12 Inst.ElemRefine13 Inst.ElemRefine14.
 Import ListNotations.
 Open Scope nat_scope.
 
@@ -1415,6 +1415,60 @@ Section GuardedNested.
              voi v P1 P2 Hv Hnv Hid Hkf).
   Qed.
 End GuardedNested.
+
+(* ------------------------------------------------------------------ *)
+(** * with_<item> through an item preparer on a nested receiver (in place) *)
+
+Section GuardedNestedPrep.
+  Variable ct : ctable.
+  Variable h0 : list obj.
+  Variable s : state.
+  Variables (l : loc) (a : aid).
+
+  Ltac nfacts kd H :=
+    destruct (nested_guard_sound ct s l a kd H)
+      as [c [d [k [sp [lc [o [Gl [Gc [Ga [Gd [Gfz [Gni [Gdep [Gfld [Glc [Go [Gun [Hk [Hsp Hob]]]]]]]]]]]]]]]]]]].
+  Ltac dep := cbn [ty_depth] in *; lia.
+
+  Theorem with_item_list_prep_nested_guarded idx v ins :
+    nested_guard ct s l a KList = true -> prep_items ct s l a = true -> fail_at s = None ->
+    vscalar v = true -> (idx = VMissing \/ exists i, idx = VInt i) ->
+    refines_spec ct h0 s l (HWithItem a) (mkh [v] true true idx ins None None [] None)
+                 (SWithItem a) (mkah [abs0 v] true true (abs0 idx) ins None None [] None).
+  Proof.
+    intros H Hp Hfa Hv Hi. nfacts KList H. destruct (prep_items_facts ct s l a sp Hsp Hp) as [P1 P2].
+    destruct (a_ty sp) as [| | | | | | |ity| |ity'|] eqn:Hty; try discriminate Hk.
+    destruct o as [xs| | |]; try discriminate Hk. cbn [item_type] in P2.
+    exact (with_item_list_prep_nested_refines ct h0 l a c d k sp s lc Gl Gc Ga Gd Gfz Gni Gfld Gun P1 Hfa xs ity idx v ins
+             Hty P2 ltac:(dep) Glc Go Hv Hi).
+  Qed.
+
+  Theorem with_item_dict_prep_nested_guarded key v :
+    nested_guard ct s l a KDict = true -> prep_items ct s l a = true -> fail_at s = None ->
+    nonref key = true -> vscalar v = true ->
+    refines_spec ct h0 s l (HWithItem a) (mkh [key; v] true true VMissing false None None [] None)
+                 (SWithItem a) (mkah [abs0 key; abs0 v] true true AMissing false None None [] None).
+  Proof.
+    intros H Hp Hfa Hkey Hv. nfacts KDict H. destruct (prep_items_facts ct s l a sp Hsp Hp) as [P1 P2].
+    destruct (a_ty sp) as [| | | | | | | |tk tv| |] eqn:Hty; try discriminate Hk.
+    destruct o as [|kvs| |]; try discriminate Hk. cbn [item_type] in P2.
+    exact (with_item_dict_prep_nested_refines ct h0 l a c d k sp s lc Gl Gc Ga Gd Gfz Gni Gfld Gun P1 Hfa kvs tk tv key v
+             Hty P2 ltac:(dep) ltac:(dep) Glc Go Hkey Hv).
+  Qed.
+
+  Theorem with_item_set_prep_nested_guarded v :
+    nested_guard ct s l a KSet = true -> prep_items ct s l a = true -> fail_at s = None ->
+    vscalar v = true -> set_prep_ok ct s l a v = true ->
+    refines_spec ct h0 s l (HWithItem a) (mkh [v] true true VMissing false None None [] None)
+                 (SWithItem a) (mkah [abs0 v] true true AMissing false None None [] None).
+  Proof.
+    intros H Hp Hfa Hv Hok. nfacts KSet H. destruct (prep_items_facts ct s l a sp Hsp Hp) as [P1 P2].
+    destruct (a_ty sp) as [| | | | | | |ity'| |ity|] eqn:Hty; try discriminate Hk.
+    destruct o as [| |xs|]; try discriminate Hk. cbn [item_type] in P2.
+    exact (with_item_set_prep_nested_refines ct h0 l a c d k sp s lc Gl Gc Ga Gd Gfz Gni Gfld Gun P1 Hfa xs ity v
+             Hty P2 ltac:(dep) Glc Go Hv (set_prep_ok_facts ct s l a sp xs v Hsp (list_of_set s l a xs Hob) Hok)).
+  Qed.
+End GuardedNestedPrep.
 
 (* ------------------------------------------------------------------ *)
 (** * A concrete class and receiver: xs : List[int], m : Dict[str, int], t : Set[int] *)
